@@ -1,7 +1,7 @@
 \* repaired model, two pushers, two listeners, close and crash
 CONSTANTS NTx = 2 Kind <- KindS Sender <- SenderS Nonce <- NonceS NAccs = 1 Accs <- MCAccs StartEmpty = FALSE
   Max = 3 NPushers = 2 NConsumers = 2 Batch = 2
-  MaxPush = 4 MaxBlocks = 0 MaxFail = 0 MaxCrash = 1 MaxClose = 1 MaxPops = 1 MaxExecErr = 1 MaxFatal = 1
+  MaxPush = 3 MaxBlocks = 0 MaxFail = 0 MaxCrash = 1 MaxClose = 1 MaxPops = 0 MaxExecErr = 1 MaxFatal = 1
   DedupFix = TRUE OverflowFix = TRUE Mutant = "none"
 INIT Init
 NEXT Next
